@@ -6,7 +6,7 @@
 (*                                                                         *)
 (* Many traces are concatenated; a "Reset" event starts a new one from     *)
 (* the initial state.  A step the specification cannot explain is printed  *)
-(* as a REJECT line and the rest of that trace is skipped (dead).          *)
+(* as a REJECT line; the rest of that trace is skipped (dead) unless only the reply was wrong.          *)
 (***************************************************************************)
 EXTENDS BtData, ChunkSM, Json, TLC
 
@@ -76,11 +76,11 @@ ObsOK(obs, s) ==
 
 \* {"same": true}: the read-back is, key samples aside, byte-for-byte the previous one of this trace (accepted for st),
 \* so it is a presentation of out.st exactly when out.st = st
-Explains(e, out) == /\ RespOK(e, out.resp)
-                    /\ IF "same" \in DOMAIN e.obs
-                       THEN /\ out.st = st
-                            /\ \A i \in 1..Len(e.obs.samps) : SampleOK(e.obs.samps[i].samp, DOMAIN st.tables[e.obs.samps[i].t].rows)
-                       ELSE ObsOK(e.obs, out.st)
+StateOK(e, out) == IF "same" \in DOMAIN e.obs
+                   THEN /\ out.st = st
+                        /\ \A i \in 1..Len(e.obs.samps) : SampleOK(e.obs.samps[i].samp, DOMAIN st.tables[e.obs.samps[i].t].rows)
+                   ELSE ObsOK(e.obs, out.st)
+Explains(e, out) == RespOK(e, out.resp) /\ StateOK(e, out)
 
 Init == st = InitSt /\ l = 1 /\ dead = FALSE /\ nrej = 0
 
@@ -104,8 +104,13 @@ Next ==
      ELSE LET outs == Step(st, e)
               good == {o \in outs : Explains(e, o)}
           IN IF good # {} THEN st' = (CHOOSE o \in good : TRUE).st /\ UNCHANGED <<dead, nrej>>
-             ELSE /\ Reject(e, IF \E o \in outs : RespOK(e, o.resp) THEN "obs" ELSE "resp")
-                  /\ dead' = TRUE /\ nrej' = nrej + 1 /\ UNCHANGED st
+             ELSE \* unexplained: report it. When only the reply is wrong (some allowed outcome has exactly the
+                  \* state the read-back shows) the rest of the trace is still checked, from that state.
+                  LET resync == {o \in outs : StateOK(e, o)} IN
+                  /\ Reject(e, IF \E o \in outs : RespOK(e, o.resp) THEN "obs" ELSE "resp")
+                  /\ nrej' = nrej + 1
+                  /\ IF resync # {} THEN st' = (CHOOSE o \in resync : TRUE).st /\ UNCHANGED dead
+                                    ELSE dead' = TRUE /\ UNCHANGED st
 
 Spec == Init /\ [][Next]_vars
 
